@@ -667,6 +667,7 @@ def run(ctx):
     sort_cases = gen_sort_cases(ctx, nrng, ES.evec_sort)
     kept = []
     n_tie = 0
+    dom_margins = []
     for idx, c in enumerate(sort_cases):
         ctx.count("evec_sort %s %s" % (c["kind"], "complex" if c["cplx"] else "real"))
         if c["err"]:
@@ -674,6 +675,12 @@ def run(ctx):
         if c["kind"] != "mismatch":
             gap, low = greedy_margin(own_overlap(c["base"], c["target"]))
             c["gap"], c["low"] = gap, low
+            if c["kind"] == "planted":
+                # hypothesis of greedy_recovers_row_dominant, measured (perturbation_gives_dominance is not proved)
+                a_ = own_overlap(c["base"], c["target"])
+                marg = min(a_[i, c["sigma"][i]] - max(numpy.delete(a_[i], c["sigma"][i])) for i in range(c["n"]))
+                dom_margins.append(float(marg))
+                ctx.count("evec_sort planted: strict row dominance %s" % ("holds" if marg > 0 else "FAILS"))
             if gap < TIE_EPS or low < TIE_EPS:
                 n_tie += 1
                 ctx.count("evec_sort discarded: within 1e-9 of an argmax tie")
@@ -682,6 +689,17 @@ def run(ctx):
         ctx.case(["sort", idx, c["kind"], c["n"], c["cplx"], c["items"]], nontrivial=True)
         kept.append(c)
     ctx.extra["evec_sort_near_tie_discarded"] = n_tie
+    ctx.extra["planted_row_dominance_min_margin"] = min(dom_margins) if dom_margins else None
+    ctx.partial += [
+        "perturbation_gives_dominance (unitary base + phases + perturbation of norm < 1/2 implies the dominance "
+        "hypothesis of greedy_recovers_dominant_perm) is not proved in Coq: strict row dominance is measured on every "
+        "planted case (minimum margin in coverage.planted_row_dominance_min_margin) and the planted permutation is "
+        "checked by the oracle",
+        "disp2eig_unit_norm / disp2eig_restores_basis are proved for real data; the complex model disp2eig_c is "
+        "covered by the correspondence run and the orthonormality oracle only",
+        "evec_load on files outside the width hypothesis of matdyn_roundtrip (10-character vector components) is not "
+        "claimed; see coverage.observation_wide_component",
+    ]
     weights = [len(c["target"]) ** 2 + 10 for c in kept]
     for si, b in enumerate(chunks_by_weight(kept, weights, 8 if quick else 16)):
         body = []
@@ -789,20 +807,23 @@ def run(ctx):
     ctx.count("regex search strings (matching)", sum(1 for _, g in rq_cases + rm_cases if g is not None))
     ctx.count("regex search strings (not matching)", sum(1 for _, g in rq_cases + rm_cases if g is None))
 
-    half = (len(gen_body) + 1) // 2
-    for si, (gb, gm) in enumerate([(gen_body[:half], gen_meta[:half]), (gen_body[half:], gen_meta[half:])]):
-        if not gb:
-            continue
-        f = write(rd / ("cases_load_gen_%d.v" % si), MATDYN_HEADER + "Definition cases := [\n" + ";\n".join(gb)
+    for si, (gb, gm) in enumerate(zip(gen_body, gen_meta)):     # one shard per generated file (parallel)
+        f = write(rd / ("cases_load_gen_%02d.v" % si), MATDYN_HEADER + "Definition cases := [\n" + gb
                   + "].\nEval vm_compute in (failing gen_ok cases).\n")
         shard_files.append(f)
-        shard_meta[f] = ("load", gm)
+        shard_meta[f] = ("load", [gm])
+    sh_case = any_body.pop()
+    sh_meta = any_meta.pop()
     f = write(rd / "cases_load_any.v", MATDYN_HEADER + "Definition cases := [\n" + ";\n".join(any_body)
-              + "].\nEval vm_compute in (failing any_ok cases).\n"
-              + "Definition shipped := [(%s, 2, 60)].\nEval vm_compute in (failing reprint_ok shipped).\n"
-              % file_lit(sh_body))
+              + "].\nEval vm_compute in (failing any_ok cases).\n")
     shard_files.append(f)
     shard_meta[f] = ("load", any_meta)
+    f = write(rd / "cases_load_shipped.v", MATDYN_HEADER + "Definition cases := [\n" + sh_case
+              + "].\nEval vm_compute in (failing any_ok cases).\n"
+              + "Definition shipped := map (fun c => let '(f, nq, np, _) := c in "
+              + "(firstn %d f, nq, np)) cases.\nEval vm_compute in (failing reprint_ok shipped).\n" % len(sh_body))
+    shard_files.append(f)
+    shard_meta[f] = ("load", [sh_meta])
     f = write(rd / "cases_regex.v", MATDYN_HEADER
               + "Definition cq : list (string * option (list string)) := [\n"
               + ";\n".join("(%s, %s)" % (coq_string(s), sopt_lit(g)) for s, g in rq_cases) + "].\n"
